@@ -14,7 +14,11 @@ from . import gen
 
 def gen_c14(rng, profile):
     kn = gen.gen_knobs(rng, profile)
-    if profile.get("batch") in ("abort_enum", "threads", "abort") and rng.random() < 0.4:
+    if profile.get("batch") in ("conc_enum", "threads") and rng.random() < 0.4:
+        # focus: several dialects compiled for one class at the same moment
+        kn.update({"dialect_support": True, "p_dialect_support": 0.9,
+                   "distinct_dialects": True, "cfg_dialect": False})
+    if profile.get("batch") in ("abort_enum", "threads", "abort", "conc_enum") and rng.random() < 0.4:
         # focus: tag registries and on-demand variant compilation, the state
         # with the narrowest windows
         kn.update({"discr_ann": True, "deep_variants": True, "nofield": rng.random() < 0.2,
@@ -26,6 +30,31 @@ def gen_c14(rng, profile):
     elif profile.get("batch") == "threads":
         kn["threads"] = True
     spec = gen.gen_family(rng, kn)
+    if profile.get("batch") == "conc_enum":
+        from . import family as F
+        fam = F.Fam(spec)
+        kn["aborts"] = False
+        kn["threads"] = False
+        ops = gen.gen_history(rng, spec, kn, n_ops=rng.randint(0, 2))
+        defined = fam.defined_after(len(spec["chunks"]))
+        sweep_start = len(ops)
+        for i, o in enumerate(ops):
+            if o["k"] == "define":
+                sweep_start = None
+        classes = gen.callable_classes(fam, defined)
+        if classes:
+            kn2 = dict(kn, codecs=False, p_same_call=0.7)
+            conc = gen.gen_conc(rng, fam, kn2, defined)
+            conc["progs"] = conc["progs"][:2]
+            # the batch goes after all definitions and before the final sweep,
+            # followed by the same calls again, one by one
+            pos = max([i for i, o in enumerate(ops) if o["k"] == "define"], default=-1) + 1
+            ops[pos:pos] = [conc] + [dict(o) for prog in conc["progs"] for o in prog]
+            return {"prop": "C14", "spec": spec, "ops": ops,
+                    "opts": {"knobs": kn, "enum": {"mode": "preempt", "target": pos,
+                                                   "cap_gen": profile.get("cap_gen", 40),
+                                                   "cap_gstate": profile.get("cap_gstate", 60)}}}
+        return {"prop": "C14", "spec": spec, "ops": ops, "opts": {"knobs": kn}}
     if profile.get("batch") == "abort_enum":
         kn["aborts"] = False
         ops = gen.gen_history(rng, spec, kn, n_ops=rng.randint(1, 3))
@@ -47,7 +76,7 @@ def gen_c14(rng, profile):
             ops.insert(target + 1, dict(ops[target]))
             return {"prop": "C14", "spec": spec, "ops": ops,
                     "opts": {"knobs": kn, "enum": {"target": target, "stride": stride,
-                                                   "max_execs": profile.get("enum_max_execs", 60),
+                                                   "max_execs": profile.get("enum_max_execs", 40),
                                                    "offset": rng.randint(0, 10 ** 6)}}}
     else:
         ops = gen.gen_history(rng, spec, kn)
@@ -166,6 +195,8 @@ def execute_search(case):
     enum = (case.get("opts") or {}).get("enum")
     if not enum:
         return execute(case), case, 1
+    if enum.get("mode") == "preempt":
+        return execute_preempt_enum(case, enum)
     target, stride = enum["target"], enum["stride"]
     probe = dict(case)
     probe["opts"] = {}
@@ -179,8 +210,8 @@ def execute_search(case):
     # between two statements of generated code — where registry / cache / stub
     # updates are half done), exhaustively
     ngen = ex0.op_gen_steps.get(target, 0)
-    total.stats["enum_gen_lines"] = total.stats.get("enum_gen_lines", 0) + min(ngen, 120)
-    for k in range(1, min(ngen, 120) + 1):
+    total.stats["enum_gen_lines"] = total.stats.get("enum_gen_lines", 0) + min(ngen, 80)
+    for k in range(1, min(ngen, 80) + 1):
         c = dict(probe)
         ops = [dict(o) for o in case["ops"]]
         ops[target]["abort_gen"] = k
@@ -194,7 +225,7 @@ def execute_search(case):
             return ex, c, execs
     # pass 1b: every line of functions that touch module-level mutable state
     # (process-wide caches and counters), exhaustively up to a cap
-    gsteps = ex0.op_gsteps.get(target, [])[:150]
+    gsteps = ex0.op_gsteps.get(target, [])[:100]
     total.stats["enum_gstate_lines"] = total.stats.get("enum_gstate_lines", 0) + len(gsteps)
     for k in gsteps:
         c = dict(probe)
@@ -223,6 +254,41 @@ def execute_search(case):
         if ex.violation is not None:
             ex.stats = total.stats
             return ex, c, execs
+    return total, probe, execs
+
+
+def execute_preempt_enum(case, enum):
+    """Schedule enumeration with preemption bound 1: for one concurrent batch,
+    every thread in turn runs first and is pre-empted once at its k-th
+    generated-code line (k = 1..cap) and at its k-th line inside a function that
+    touches module-level mutable state; the other threads run to completion in
+    between.  The first failing schedule is returned as an ordinary case."""
+    target = enum["target"]
+    probe = dict(case)
+    probe["opts"] = {}
+    ex0 = execute(probe)
+    if ex0.violation is not None:
+        return ex0, probe, 1
+    total, execs = ex0, 1
+    nthreads = len(case["ops"][target]["progs"])
+    for what, cap in (("gstate", enum.get("cap_gstate", 80)), ("gen", enum.get("cap_gen", 60))):
+        for tid in range(nthreads):
+            for at in range(1, cap + 1):
+                c = dict(probe)
+                ops = [dict(o) for o in case["ops"]]
+                ops[target] = dict(ops[target])
+                ops[target]["sched"] = {"kind": "single", "tid": tid, "at": at, "what": what}
+                c["ops"] = ops
+                ex = execute(c, ref_cache=ex0.ref_cache)
+                execs += 1
+                merge_stats(total.stats, ex.stats)
+                total.stats["enum_preempt_points"] = total.stats.get("enum_preempt_points", 0) + 1
+                total.digest = (total.digest * 1000003 + ex.digest) % ((1 << 61) - 1)
+                if ex.violation is not None:
+                    ex.stats = total.stats
+                    return ex, c, execs
+                if not ex.single_fired.get(target):
+                    break  # the thread has fewer such lines: nothing further to try
     return total, probe, execs
 
 
